@@ -41,9 +41,11 @@ def case(task):
             ref = gc.ref_chunks(st, fields.T0, X, Y, Z, ref_fn)
             s_curv = float(np.abs(ref['_dGamma']).max()
                            + np.abs(ref['st_Gamma_udd4']).max() ** 2)
+            fwd = {}
             with gc.quiet():
                 for k in KEYS:
                     val = rel[k]
+                    fwd[k] = np.array(val, copy=True)
                     rmax = float(np.abs(ref[k]).max())
                     if k in ALGEBRAIC:
                         sc = max(rmax, 1e-300)
@@ -57,6 +59,10 @@ def case(task):
                         gc.err(val, ref[k], sc))
                     res['scale'][k] = sc
                     res['refmax'][k] = rmax
+            if N == Ns[0]:
+                res['order'] = gc.order_dependence(
+                    desc, seed, p, N, KEYS, fwd, with_T=with_T,
+                    vacuum=vacuum)
     except Exception as ex:      # noqa: BLE001
         import traceback
         res['raised'] = traceback.format_exc()[-600:]
@@ -103,6 +109,13 @@ def judge(run, task, res):
         run.violation(f"C04:raised:{desc[0]}", f"{tag}: {res['raised']}",
                       {'task': res['task']})
         return
+    for k, d in res.get('order', {}).items():
+        run.count('order_comparisons')
+        if not d <= 1e-9:
+            run.violation(f"C04:order-dependent:{k}",
+                          f"{tag}: {k} differs by {d:.2e} (relative) when "
+                          "the same keys are requested in reverse order on "
+                          "a fresh instance", {'task': res['task'], 'key': k})
     exact = desc[0] == 'ds'
     for k, (e_lo, e_hi) in res['err'].items():
         nontrivial = res['refmax'][k] > 1e-6
